@@ -156,11 +156,21 @@ def area_history(rng, z, n_cases):
         qs = [rnd_q(rng) for _ in range(3)]
         rs = [rnd_rec(rng) for _ in range(4)]
         ops = []
-        for _ in range(rng.randint(1, 10)):
-            k = rng.choice(["add", "add", "sup", "sup", "exp", "clr"] if rng.random() < 0.3 else ["add", "add", "sup", "sup", "exp"])
-            now = rng.choice([0, 1, 500, 999, 1000, 1001, 1998, 1999, 2000, 2001, 3000])
-            known = rng.sample(range(4), rng.randint(0, 3))
-            ops.append((k, rng.randrange(3), now, known))
+        # boundary gaps: every numeric constant of const.py, +-1 (an edit of the constant a function reads must show)
+        cpool = sorted({int(v) for v in vars(z.const).values() if isinstance(v, (int, float)) and not isinstance(v, bool) and 0 < v <= 20000})
+        gaps = [c + d for c in cpool for d in (-1, 0, 1)]
+        last_add, last_q, last_known = 1000, 0, []
+        for _ in range(rng.randint(2, 10)):
+            k = rng.choice(["add", "add", "sup", "sup", "exp", "clr"] if rng.random() < 0.3 else ["add", "add", "sup", "sup", "sup", "exp"])
+            if k == "add":
+                now = last_add + rng.choice([0, 1, 500, 3000])
+                qi, known = rng.randrange(3), rng.sample(range(4), rng.randint(0, 3))
+                last_add, last_q, last_known = now, qi, known
+            else:
+                now = last_add + rng.choice(gaps)
+                qi = last_q if rng.random() < 0.8 else rng.randrange(3)
+                known = sorted(set(last_known) | set(rng.sample(range(4), rng.randint(0, 2)))) if rng.random() < 0.8 else rng.sample(range(4), rng.randint(0, 3))
+            ops.append((k, qi, now, known))
         # python
         h = QH()
         pq = [q_py(d, z) for d in qs]
@@ -638,7 +648,7 @@ def emit(repo, areas):
     for area, f in AREAS.items():
         if area not in areas or not (gen_dir / (area + ".lean")).exists():
             continue
-        rng = random.Random("20260925-" + area)
+        rng = random.Random("%s-%s" % (os.environ.get("VERIF_SEED", "0") or "0", area))
         d, e, x = f(rng, z, int(os.environ.get("FN_SELFTEST_CASES", "40")))
         imports.append("import Zc.GenFn.%s" % area)
         defs.append(d)
@@ -654,12 +664,14 @@ def emit(repo, areas):
 
 def area_key(lean_dir, repo, area):
     h = hashlib.sha1()
+    h.update((os.environ.get("VERIF_SEED", "0") or "0").encode())
     for q in [lean_dir / "Zc" / "GenFn" / (area + ".lean")] + sorted((lean_dir / "Zc" / "Py").glob("*.lean")):
         h.update(q.read_bytes())
     src = pathlib.Path(repo) / "src" / "zeroconf"
-    for rel in AREA_SOURCES.get(area, []):
+    # every module of the library: what a translated function imports (constants, helpers, base classes) decides what the real code does
+    for q in sorted(src.rglob("*.py")):
         try:
-            h.update((src / rel).read_bytes())
+            h.update(q.read_bytes())
         except OSError:
             pass
     h.update(pathlib.Path(__file__).read_bytes())
@@ -671,6 +683,13 @@ def run(lean_dir, repo, skip=()):
     `skip`: areas whose translation failed (their GenFn file is the committed one, not this tree's)"""
     lean_dir = pathlib.Path(lean_dir)
     run.bad_areas = {}
+    # regression probes of the translator itself (review r3): fail-closed cases and evaluation-order shapes
+    sys.path.insert(0, str(HERE / "fn_probes"))
+    import run as fn_probes_run
+
+    bad = fn_probes_run.run_all()
+    if bad:
+        return False, "translator probes: " + "; ".join(bad)[:400], 0
     okfile = lean_dir / ".fn_selftest.ok"
     try:
         cache = json.loads(okfile.read_text())
